@@ -424,6 +424,8 @@ static bool directed_case(uint64_t i, vh::Rng& r, Pair& p) {
     double l0 = (1 - f) * 180; if (l0 > 180) l0 = 180;
     static const double off[] = {0, 1e-13, -1e-13, 1e-10, -1e-10, 1e-6, -1e-6, 1e-3, -1e-3, 0.1, -0.1, 0.5, -0.5, 1, -2};
     p.lat1 = (k % 2) ? 0.0 : -0.0; p.lat2 = (k % 4 < 2) ? 0.0 : -0.0; dl = l0 + (k - 70 < 15 ? off[k - 70] : r.sign() * r.logu(1e-14, 1));
+    // the solver's equatorial test is the floating-point comparison (180 - lon12) >= f * 180: hit it exactly and +-1 ulp
+    if (k >= 70 && k <= 72 && f > 0) { p.lon1 = 0; dl = vh::ulps(180 - f * 180, (int)k - 71); }
     if (k >= 92) { p.lat1 = r.sign() * r.logu(1e-300, 1e-12); p.lat2 = r.coin() ? -p.lat1 : r.sign() * r.logu(1e-300, 1e-12); }     // "really close to the equator"
     if (dl > 180) dl = 360 - dl;
     p.sec = "directed-equator-near-(1-f)180";
